@@ -29,7 +29,7 @@ type Outcome struct {
 	V         *Node
 	Unordered bool // V is a list/vector whose order is not prescribed (keys, vals, seq/vec of a set)
 	Why       string
-	Payload   any // set by model functions that fail: carried through unchanged (e.g. a reference-interpreter error)
+	Payload   any     // set by model functions that fail: carried through unchanged (e.g. a reference-interpreter error)
 	Forbid    []*Node // with K == Unspecified: results that are wrong whatever reading of the documentation is taken
 }
 
